@@ -183,6 +183,33 @@ type query struct {
 	qtype  uint16
 	extra  string // "", "ecs4", "ecs4-nomatch", "ecs6", "do"
 	weight int    // filled by the engine: number of address candidates
+	// the header / question dimensions the front handlers (and the accept filter in
+	// front of them) can look at; the zero values are an ordinary class IN QUERY
+	clsSet bool
+	qclass uint16 // question class when clsSet (class 0 is a member of the alphabet)
+	opcode int    // header opcode (0 = QUERY)
+	flag   string // one header bit set in the query: "", rd, ad, cd, aa, tc, ra, z
+}
+
+func (q query) class() uint16 {
+	if q.clsSet {
+		return q.qclass
+	}
+	return dns.ClassINET
+}
+
+func typeName(t uint16) string {
+	if s, ok := dns.TypeToString[t]; ok && t != 0 {
+		return s
+	}
+	return fmt.Sprintf("TYPE%d", t)
+}
+
+func className(c uint16) string {
+	if s, ok := dns.ClassToString[c]; ok {
+		return s
+	}
+	return fmt.Sprintf("CLASS%d", c)
 }
 
 func (q query) id() string {
@@ -190,9 +217,18 @@ func (q query) id() string {
 	if s == "" {
 		s = "root"
 	}
-	s += "/" + dns.TypeToString[q.qtype]
+	s += "/" + typeName(q.qtype)
 	if q.extra != "" {
 		s += "+" + q.extra
+	}
+	if c := q.class(); c != dns.ClassINET {
+		s += "+class=" + className(c)
+	}
+	if q.opcode != dns.OpcodeQuery {
+		s += fmt.Sprintf("+opcode=%d", q.opcode)
+	}
+	if q.flag != "" {
+		s += "+" + q.flag
 	}
 	return s
 }
@@ -201,7 +237,27 @@ func (q query) id() string {
 func (q query) build(t transport, id uint16) ([]byte, error) {
 	m := new(dns.Msg)
 	m.Id = id
-	m.Question = []dns.Question{{Name: q.name, Qtype: q.qtype, Qclass: dns.ClassINET}}
+	m.Question = []dns.Question{{Name: q.name, Qtype: q.qtype, Qclass: q.class()}}
+	m.Opcode = q.opcode
+	switch q.flag {
+	case "":
+	case "rd":
+		m.RecursionDesired = true
+	case "ad":
+		m.AuthenticatedData = true
+	case "cd":
+		m.CheckingDisabled = true
+	case "aa":
+		m.Authoritative = true
+	case "tc":
+		m.Truncated = true
+	case "ra":
+		m.RecursionAvailable = true
+	case "z":
+		m.Zero = true
+	default:
+		return nil, fmt.Errorf("unknown header flag %q", q.flag)
+	}
 	needOpt := q.extra != "" || (!t.tcp && t.size != 0)
 	if needOpt {
 		o := &dns.OPT{Hdr: dns.RR_Header{Name: ".", Rrtype: dns.TypeOPT}}
@@ -235,8 +291,9 @@ func (q query) applicable(t transport) bool {
 	return true
 }
 
-// querySet is the closed set: names x types, plus a few option-carrying queries.
-func querySet() []query {
+// querySet is the closed set: names x types, plus a few option-carrying queries,
+// plus the front-handler dimensions (frontSet).
+func querySet(thorough bool) []query {
 	var out []query
 	for _, n := range names() {
 		for _, t := range qtypes {
@@ -248,38 +305,150 @@ func querySet() []query {
 		out = append(out, query{name: whoamiDomain + ".", qtype: dns.TypeTXT, extra: e})
 	}
 	out = append(out, query{name: "huge.example.com.", qtype: dns.TypeTXT, extra: "do"})
+	// ANY with options (the refusal must not depend on them)
+	out = append(out, query{name: "example.com.", qtype: dns.TypeANY, extra: "do"})
+	out = append(out, query{name: "geo.example.com.", qtype: dns.TypeANY, extra: "ecs4"})
+	out = append(out, query{name: "WhoAmI.Example.COM.", qtype: dns.TypeANY, extra: "ecs6"})
+	return append(out, frontSet(thorough)...)
+}
+
+// The dimensions of a message the front handlers (fbserver/any.go, maxanswer.go,
+// serve_mux.go, whoami/) and the accept filter in front of them look at or could
+// look at, each crossed with every listener configuration and transport:
+// question class, question type, opcode, header bits. (Question count: rawMessages;
+// name case: names().)
+var frontNames = []string{
+	"example.com.", "www.example.com.", "WwW.ExAmPlE.CoM.", "w3.example.com.", "huge.example.com.", "nope.example.com.",
+	whoamiDomain + ".", "WhoAmI.Example.COM.", "under." + whoamiDomain + ".", "other.org.",
+}
+
+var frontTypes = []uint16{dns.TypeA, dns.TypeTXT, dns.TypeANY}
+
+func frontClasses(thorough bool) []uint16 {
+	// every assigned class but IN, the reserved value 0, and (thorough) the neighbours and the private/last values
+	l := []uint16{0, dns.ClassCSNET, dns.ClassCHAOS, dns.ClassHESIOD, dns.ClassNONE, dns.ClassANY}
+	if thorough {
+		l = append(l, 5, 253, 256, 65280, 65535)
+	}
+	return l
+}
+
+func frontOpcodes(thorough bool) []int {
+	// IQUERY, STATUS, unassigned 3, NOTIFY (the one non-QUERY opcode the accept filter lets through), UPDATE, DSO, last
+	l := []int{dns.OpcodeIQuery, dns.OpcodeStatus, 3, dns.OpcodeNotify, dns.OpcodeUpdate, 6, 15}
+	if thorough {
+		l = []int{1, 2, 3, 4, 5, 6, 7, 8, 9, 10, 11, 12, 13, 14, 15}
+	}
+	return l
+}
+
+// more question types: ordinary ones absent from qtypes, the meta / question-only types around ANY (255), and the ends
+var frontMoreTypes = []uint16{
+	dns.TypeCNAME, dns.TypePTR, dns.TypeHINFO, dns.TypeSRV, dns.TypeOPT, dns.TypeDS, dns.TypeDNSKEY, dns.TypeSVCB, dns.TypeHTTPS,
+	dns.TypeIXFR, dns.TypeAXFR, dns.TypeMAILB, dns.TypeMAILA, 0, 256, 65535,
+}
+
+var frontFlags = []string{"rd", "ad", "cd", "aa", "tc", "ra", "z"}
+
+func frontSet(thorough bool) []query {
+	var out []query
+	for _, c := range frontClasses(thorough) {
+		for _, n := range frontNames {
+			for _, t := range frontTypes {
+				out = append(out, query{name: n, qtype: t, clsSet: true, qclass: c})
+			}
+		}
+	}
+	for _, op := range frontOpcodes(thorough) {
+		ns := []string{"example.com.", "w3.example.com.", "WhoAmI.Example.COM."}
+		if op == dns.OpcodeNotify {
+			ns = frontNames // reaches the handler chain
+		}
+		for _, n := range ns {
+			for _, t := range frontTypes {
+				out = append(out, query{name: n, qtype: t, opcode: op})
+			}
+		}
+	}
+	// a non-QUERY opcode and a non-IN class together
+	out = append(out, query{name: "example.com.", qtype: dns.TypeANY, opcode: dns.OpcodeNotify, clsSet: true, qclass: dns.ClassCHAOS})
+	out = append(out, query{name: whoamiDomain + ".", qtype: dns.TypeTXT, opcode: dns.OpcodeNotify, clsSet: true, qclass: dns.ClassANY})
+	for _, t := range frontMoreTypes {
+		for _, n := range []string{"example.com.", "www.example.com.", "nope.example.com.", whoamiDomain + "."} {
+			out = append(out, query{name: n, qtype: t})
+		}
+	}
+	for _, f := range frontFlags {
+		for _, q := range []query{
+			{name: "w3.example.com.", qtype: dns.TypeA}, {name: "example.com.", qtype: dns.TypeANY},
+			{name: whoamiDomain + ".", qtype: dns.TypeTXT}, {name: "huge.example.com.", qtype: dns.TypeTXT},
+		} {
+			q.flag = f
+			out = append(out, q)
+		}
+	}
 	return out
 }
 
-// malformed raw messages: no question at all, and more than one.
+// malformed raw messages: no question at all, and more than one (the handlers
+// look at Question[0] only: the first / a later question being ANY or the whoami
+// name are separate cases); thorough: a message with QR set.
 type rawMsg struct {
 	name string
 	wire func(id uint16) []byte
+	qs   []dns.Question // the questions of a well-formed message with a question count other than 1
+	qr   bool           // a response sent as if it were a query (the server may well ignore it)
 }
 
-func rawMessages() []rawMsg {
+func rawMessages(thorough bool) []rawMsg {
 	hdr := func(id uint16, qd, ar uint16) []byte {
 		return []byte{byte(id >> 8), byte(id), 0, 0, byte(qd >> 8), byte(qd), 0, 0, 0, 0, byte(ar >> 8), byte(ar)}
 	}
-	return []rawMsg{
-		{"zero-questions", func(id uint16) []byte { return hdr(id, 0, 0) }},
-		{"zero-questions-opt", func(id uint16) []byte {
+	out := []rawMsg{
+		{name: "zero-questions", wire: func(id uint16) []byte { return hdr(id, 0, 0) }},
+		{name: "zero-questions-opt", wire: func(id uint16) []byte {
 			// header + OPT pseudo record (root, type 41, udp 1232, ttl 0, rdlen 0)
 			return append(hdr(id, 0, 1), 0, 0, 41, 0x04, 0xd0, 0, 0, 0, 0, 0, 0)
 		}},
-		{"qdcount-1-but-no-question", func(id uint16) []byte { return hdr(id, 1, 0) }},
-		{"two-questions", func(id uint16) []byte {
+		{name: "qdcount-1-but-no-question", wire: func(id uint16) []byte { return hdr(id, 1, 0) }},
+	}
+	in := func(n string, t uint16) dns.Question { return dns.Question{Name: n, Qtype: t, Qclass: dns.ClassINET} }
+	multi := func(name string, qs ...dns.Question) {
+		out = append(out, rawMsg{name: name, qs: qs, wire: func(id uint16) []byte {
 			m := new(dns.Msg)
 			m.Id = id
-			m.Question = []dns.Question{
-				{Name: "www.example.com.", Qtype: dns.TypeA, Qclass: dns.ClassINET},
-				{Name: "www.example.com.", Qtype: dns.TypeAAAA, Qclass: dns.ClassINET},
-			}
+			m.Question = qs
 			b, err := m.Pack()
 			if err != nil {
 				panic(err)
 			}
 			return b
-		}},
+		}})
 	}
+	multi("two-questions", in("www.example.com.", dns.TypeA), in("www.example.com.", dns.TypeAAAA))
+	multi("two-questions-any-first", in("example.com.", dns.TypeANY), in("www.example.com.", dns.TypeA))
+	multi("two-questions-any-second", in("www.example.com.", dns.TypeA), in("example.com.", dns.TypeANY))
+	multi("two-questions-whoami-first", in(whoamiDomain+".", dns.TypeTXT), in("www.example.com.", dns.TypeA))
+	multi("two-questions-whoami-second", in("www.example.com.", dns.TypeA), in(whoamiDomain+".", dns.TypeTXT))
+	multi("three-questions", in("www.example.com.", dns.TypeA), in("example.com.", dns.TypeANY), in(whoamiDomain+".", dns.TypeTXT))
+	if thorough {
+		for _, c := range []struct {
+			name string
+			q    dns.Question
+		}{{"qr-set", in("www.example.com.", dns.TypeA)}, {"qr-set-any", in("example.com.", dns.TypeANY)}} {
+			q := c.q
+			out = append(out, rawMsg{name: c.name, qr: true, wire: func(id uint16) []byte {
+				m := new(dns.Msg)
+				m.Id = id
+				m.Response = true
+				m.Question = []dns.Question{q}
+				b, err := m.Pack()
+				if err != nil {
+					panic(err)
+				}
+				return b
+			}})
+		}
+	}
+	return out
 }
